@@ -27,6 +27,8 @@ META = {
     "methods resynchronise is *computed* from their bodies, not assumed). Expression-token nesting and text "
     "equality of spans are not decided.",
 }
+META["technique"] += '; emission-to-resync no-advance typestate; who-may-build-tokens audit with position-argument provenance'
+META["level_text"] += " Also decided (R1c, R4): the scan pointer does not move between a token's emission and the resync (no gap), and no token is built outside the lexer with a position of its own (only the position-less end-of-input token)."
 
 S, U, T = "synced", "unsynced", "unknown"
 
